@@ -213,6 +213,10 @@ func (g G) drawSP(i int, o worldOpts, hardURL bool) SPCfg {
 		c.CertUse = ""
 	}
 	c.CertWrap = g.chance(fmt.Sprintf("sp%d.wrap", i), 30)
+	if g.chance(fmt.Sprintf("sp%d.enc", i), 30) {
+		// a second KeyDescriptor for encryption (another key pair), before or after the signing one
+		c.EncKey, c.EncFirst = KeyEnc, g.chance(fmt.Sprintf("sp%d.encfirst", i), 50)
+	}
 	c.MDPrefix = g.pick(fmt.Sprintf("sp%d.mdp", i), "", "default", "exotic")
 	if o.signReqVariety {
 		c.AuthnRequestsSigned = g.pick(fmt.Sprintf("sp%d.ars", i), "", "false", "true", "1", "0", "true", "1", "True", "TRUE", "t", " true ", "yes", " 1")
